@@ -449,19 +449,24 @@ fn judge_image<A: Attr>(rep: &mut Report, sc: &Scene<A>, or: &Oracle, cv: &Canva
                         return false;
                     }
                     let got_a = f32::from_bits(gc) as f64;
-                    let ok = hits.iter().any(|&(_, k, bb)| {
+                    let ok = hits.iter().any(|&(sk, k, bb)| {
                         let ea = bb[0] * av[k][0] + bb[1] * av[k][1] + bb[2] * av[k][2];
                         // the same tolerance as for a single covering triangle:
                         // 0.5 % of the range, the rounding floor, and the value's
                         // change over 0.001 px (on large targets: over the drift)
-                        let d = if or.drift > 0.0 { or.drift } else { 0.001 };
+                        // (and the clip-coordinate rounding and the amplified rounding
+                        // floor, as in the single-triangle judgement below)
+                        let max_in = sc.cs.tris[k].iter().flat_map(|&q| sc.cs.verts[q].0).fold(0.0f64, |m, c| m.max((c as f64).abs()));
+                        let clip_ulp_px = (2.0 * 1.2e-7 * max_in * sk.abs() * 0.5 * ((r - l).max(b - t) as f64)).min(0.02);
+                        let amp = (or.itris[k].s_max_visible(&or.vpx) / sk.abs().max(1e-300)).clamp(1.0, 100.0);
+                        let d = if or.drift > 0.0 { or.drift } else { 0.001 + clip_ulp_px };
                         let mut slack = 0.0f64;
                         for (dx, dy) in [(d, 0.0), (-d, 0.0), (0.0, d), (0.0, -d)] {
                             if let Some((_, b2)) = or.itris[k].eval(or.vpx.to_ndc((centre.0 + dx, centre.1 + dy))) {
                                 slack = slack.max((b2[0] * av[k][0] + b2[1] * av[k][1] + b2[2] * av[k][2] - ea).abs());
                             }
                         }
-                        (got_a - ea).abs() <= 0.005 * ranges[k].0 + 1e-5 * ranges[k].1 + slack + 1e-30
+                        (got_a - ea).abs() <= 0.005 * ranges[k].0 + 2e-5 * ranges[k].1 * amp + slack + 1e-30
                     });
                     if !ok {
                         rep.violation(
@@ -536,7 +541,20 @@ fn judge_image<A: Attr>(rep: &mut Report, sc: &Scene<A>, or: &Oracle, cv: &Canva
             let ea = bb[0] * av[k][0] + bb[1] * av[k][1] + bb[2] * av[k][2];
             let mut slack_a = 0.0f64;
             let mut slack_z = 0.0f64;
-            for (dx, dy) in [(0.001, 0.0), (-0.001, 0.0), (0.0, 0.001), (0.0, -0.001)] {
+            // … plus the f32 rounding of the clip coordinates themselves: an
+            // absolute error of an ulp of the triangle's largest coordinate (the
+            // clipper interpolates from the far vertex, a + (b−a)·t, so a new
+            // vertex near the eye carries the far vertex's ulp) is a screen
+            // error of that ulp × 1/w × half the viewport. Negligible unless a
+            // triangle spans three decades in w (met by the thorough tier:
+            // w = 29 / 0.016 / 4.2 in one triangle, depth gradient 500 per px).
+            let max_in = sc.cs.tris[k].iter().flat_map(|&q| sc.cs.verts[q].0).fold(0.0f64, |m, c| m.max((c as f64).abs()));
+            let clip_ulp_px = (2.0 * 1.2e-7 * max_in * s.abs() * 0.5 * ((r - l).max(b - t) as f64)).min(0.02);
+            if clip_ulp_px > 1e-3 {
+                rep.count("pixels_whose_value_slack_is_dominated_by_clip_coordinate_rounding");
+            }
+            let dv = 0.001 + clip_ulp_px;
+            for (dx, dy) in [(dv, 0.0), (-dv, 0.0), (0.0, dv), (0.0, -dv)] {
                 if let Some((s2, b2)) = or.itris[k].eval(or.vpx.to_ndc((centre.0 + dx, centre.1 + dy))) {
                     let a2 = b2[0] * av[k][0] + b2[1] * av[k][1] + b2[2] * av[k][2];
                     slack_a = slack_a.max((a2 - ea).abs());
@@ -544,7 +562,13 @@ fn judge_image<A: Attr>(rep: &mut Report, sc: &Scene<A>, or: &Oracle, cv: &Canva
                 }
             }
             let got_a = f32::from_bits(gc) as f64;
-            let tol_a = 0.005 * ranges[k].0 + 1e-5 * ranges[k].1 + slack_a + 1e-30;
+            // rounding floor (what remains when the vertex values are nearly
+            // equal and 0.5 % of their range is ≈ 0): the stepped a/w and 1/w
+            // carry a few ulps of their largest value over the visible part,
+            // and the division amplifies that by (largest 1/w)/(1/w here) —
+            // the same floor as C05's
+            let amp = (or.itris[k].s_max_visible(&or.vpx) / s.abs().max(1e-300)).clamp(1.0, 100.0);
+            let tol_a = 0.005 * ranges[k].0 + 2e-5 * ranges[k].1 * amp + slack_a + 1e-30;
             let err_a = (got_a - ea).abs();
             rep.worst("attr_err/tol", if err_a.is_nan() { f64::INFINITY } else { err_a / tol_a }, 1.0, || format!("pixel ({x},{y}) tri {k} got {got_a} exp {ea}"));
             // F9 attribution for value errors: explained by a positional
